@@ -911,7 +911,7 @@ namespace awkward {
 
   const std::string
   Content::purelist_parameter(const std::string& key) const {
-    return form(false).get()->purelist_parameter(key);
+    return form(true).get()->purelist_parameter(key);
   }
 
   bool
